@@ -7,6 +7,7 @@ from checks import audcommon
 
 PID = "C02"
 THEOREMS = ["c02_periods_independent_and_well_formed", "c02_every_period_closed",
+            "c02_periods_closed_even_when_aborted",
             "c02_period_follows_condition", "c02_stale_condition_is_a_no_op",
             "c02_nothing_outside_periods"]
 
